@@ -326,7 +326,7 @@ def validate_traces(spec, shard_traces, workdir):
     memo = {}
     for r in rej:
         e = r['event']
-        sig = (e.get('ev'), e.get('res'), e.get('k'), e.get('code'), e.get('x') if e.get('ev') in ('Leak', 'Wedged') else '',
+        sig = (spec, e.get('ev'), e.get('res'), e.get('k'), e.get('code'), e.get('x') if e.get('ev') in ('Leak', 'Wedged') else '',
                len(r['lines']) if e.get('ev') in ('SW', 'CW', 'Quiesce') else 0)
         if sig not in memo:
             found = diagnose(spec, r['lines'], workdir)
